@@ -155,3 +155,145 @@ Example with_lock_same_schedule :
   let s := qrun true (cold 2 2) [QR 0; QR 0; QX; QF; QR 0; QF; QR 1; QR 1; QR 1] in
   q_signalled s = 3 /\ nth_error (q_reqs s) 1 = Some (QDone 3 3).
 Proof. vm_compute. split; reflexivity. Qed.
+
+(* ------------------------------------------------------------------ two records
+   The failure found on the code involves two records: the epoch record (always cached on an instance:
+   read at construction, re-read by the poller after each flush) and a node record (here: the root,
+   which changes with every epoch).  A node record retains two versions; a request that has read epoch
+   a selects from the record whose latest version is l "as of a": the latest if l <= a, else the
+   previous one (l - 1) if that is <= a, else it fails ("both retained versions are newer").  The
+   answer is right when the selected version is a.
+
+   Theorem: with the cache lock every answer names (a, version a) or is an error, for every schedule;
+   without it the schedule found on the code yields (a + 1, version a). *)
+Inductive tpc :=
+| T0
+| TN (a : nat)                   (* has read epoch a, about to look for the node *)
+| TR (a : nat)                   (* node not cached: about to read the data layer *)
+| TF (a l : nat)                 (* has read the record with latest version l, about to cache it *)
+| TDone (a : nat) (r : option nat).
+
+Record tstate := TSt { t_db : nat; t_azks : nat; t_node : option nat; t_reqs : list tpc }.
+
+Fixpoint tupd (l : list tpc) (i : nat) (x : tpc) : list tpc :=
+  match l, i with
+  | [], _ => []
+  | _ :: r, O => x :: r
+  | a :: r, S j => a :: tupd r j x
+  end.
+
+Definition as_of (l a : nat) : option nat :=
+  if Nat.leb l a then Some l else if Nat.leb (l - 1) a then Some (l - 1) else None.
+
+Definition t_flight (q : tpc) : bool := match q with TN _ | TR _ | TF _ _ => true | _ => false end.
+
+Definition tstep (locking : bool) (s : tstate) (a : qaction) : tstate :=
+  match a with
+  | QR i =>
+    match nth_error (t_reqs s) i with
+    | Some T0 => TSt (t_db s) (t_azks s) (t_node s) (tupd (t_reqs s) i (TN (t_azks s)))
+    | Some (TN a) =>
+      TSt (t_db s) (t_azks s) (t_node s)
+          (tupd (t_reqs s) i (match t_node s with Some l => TDone a (as_of l a) | None => TR a end))
+    | Some (TR a) => TSt (t_db s) (t_azks s) (t_node s) (tupd (t_reqs s) i (TF a (t_db s)))
+    | Some (TF a l) => TSt (t_db s) (t_azks s) (Some l) (tupd (t_reqs s) i (TDone a (as_of l a)))
+    | _ => s
+    end
+  | QX => TSt (S (t_db s)) (t_azks s) (t_node s) (t_reqs s)
+  | QF =>
+    if locking && existsb t_flight (t_reqs s) then s
+    else if Nat.ltb (t_azks s) (t_db s) then TSt (t_db s) (t_db s) None (t_reqs s)
+         else s
+  end.
+
+Definition tinit (e0 n : nat) : tstate := TSt e0 e0 None (repeat T0 n).
+Definition trun2 (locking : bool) (s : tstate) (sched : list qaction) : tstate := fold_left (tstep locking) sched s.
+
+Definition t_ok (s : tstate) (q : tpc) : Prop :=
+  match q with
+  | T0 => True
+  | TN a | TR a => a = t_azks s
+  | TF a l => a = t_azks s /\ a <= l /\ l <= t_db s
+  | TDone a r => r = Some a \/ r = None
+  end.
+
+Record TInv (s : tstate) : Prop := {
+  ti_azks : t_azks s <= t_db s;
+  ti_node : forall l, t_node s = Some l -> t_azks s <= l /\ l <= t_db s;
+  ti_reqs : Forall (t_ok s) (t_reqs s) }.
+
+Lemma Forall_tupd (P : tpc -> Prop) : forall l i x, Forall P l -> P x -> Forall P (tupd l i x).
+Proof.
+  induction l as [|a l IH]; intros i x H Hx; [constructor|]. inversion H; subst.
+  destruct i; cbn [tupd]; constructor; auto.
+Qed.
+Lemma nth_Forall_t (P : tpc -> Prop) l i x : Forall P l -> nth_error l i = Some x -> P x.
+Proof. intros H E. rewrite Forall_forall in H. apply H. eapply nth_error_In; eassumption. Qed.
+
+Lemma as_of_right l a : a <= l -> as_of l a = Some a \/ as_of l a = None.
+Proof.
+  intros H. unfold as_of. destruct (Nat.leb_spec l a) as [H1|H1].
+  - left. f_equal. lia.
+  - destruct (Nat.leb_spec (l - 1) a) as [H2|H2]; [left; f_equal; lia | right; reflexivity].
+Qed.
+
+Lemma tinit_inv e0 n : TInv (tinit e0 n).
+Proof.
+  constructor; cbn [tinit t_db t_azks t_node t_reqs]; [lia | discriminate |].
+  apply Forall_forall. intros q Hq. apply repeat_spec in Hq. subst q. exact I.
+Qed.
+
+Lemma tstep_keeps s a : TInv s -> TInv (tstep true s a).
+Proof.
+  intros [Ha Hn Hr]. destruct a as [i| |]; cbn [tstep].
+  - destruct (nth_error (t_reqs s) i) as [[|a|a|a l|a r]|] eqn:E; try (constructor; assumption).
+    + constructor; cbn [t_db t_azks t_node t_reqs]; try assumption.
+      apply Forall_tupd; [exact Hr | reflexivity].
+    + pose proof (nth_Forall_t _ _ _ _ Hr E) as Hq. cbn [t_ok] in Hq.
+      constructor; cbn [t_db t_azks t_node t_reqs]; try assumption.
+      apply Forall_tupd; [exact Hr|]. destruct (t_node s) as [l|] eqn:En; cbn [t_ok]; [|exact Hq].
+      apply as_of_right. destruct (Hn l eq_refl). lia.
+    + pose proof (nth_Forall_t _ _ _ _ Hr E) as Hq. cbn [t_ok] in Hq.
+      constructor; cbn [t_db t_azks t_node t_reqs]; try assumption.
+      apply Forall_tupd; [exact Hr|]. cbn [t_ok t_azks t_db]. split; [exact Hq | split; lia].
+    + pose proof (nth_Forall_t _ _ _ _ Hr E) as (Hq & H1 & H2). cbn [t_ok] in *.
+      constructor; cbn [t_db t_azks t_node t_reqs]; try assumption.
+      * intros l' Hl. injection Hl as <-. split; lia.
+      * apply Forall_tupd; [exact Hr|]. cbn [t_ok]. apply as_of_right. exact H1.
+  - constructor; cbn [t_db t_azks t_node t_reqs].
+    + lia.
+    + intros l Hl. destruct (Hn l Hl). split; lia.
+    + eapply Forall_impl; [|exact Hr]. intros q. destruct q; cbn [t_ok t_azks t_db]; auto. intros (A & B & C). split; [exact A | split; lia].
+  - cbn [andb]. destruct (existsb t_flight (t_reqs s)) eqn:Ef; [constructor; assumption|].
+    destruct (Nat.ltb_spec (t_azks s) (t_db s)) as [Hlt|_]; [|constructor; assumption].
+    constructor; cbn [t_db t_azks t_node t_reqs]; [lia | discriminate |].
+    apply Forall_forall. intros q Hq.
+    assert (Hnf : t_flight q = false).
+    { destruct (t_flight q) eqn:Eq; [|reflexivity].
+      assert (existsb t_flight (t_reqs s) = true) by (apply existsb_exists; exists q; split; assumption). congruence. }
+    pose proof (proj1 (Forall_forall _ _) Hr q Hq) as Hok.
+    destruct q; cbn [t_flight] in Hnf; try discriminate; exact Hok.
+Qed.
+
+Theorem answers_name_their_epoch e0 n sched :
+  let s := trun2 true (tinit e0 n) sched in
+  forall i a r, nth_error (t_reqs s) i = Some (TDone a r) -> r = Some a \/ r = None.
+Proof.
+  cbv zeta.
+  assert (G : forall sched s, TInv s -> TInv (trun2 true s sched)).
+  { induction sched0 as [|a rest IH]; intros s Hs; [exact Hs|]. unfold trun2. cbn [fold_left]. apply IH. apply tstep_keeps. exact Hs. }
+  pose proof (G sched _ (tinit_inv e0 n)) as [_ _ Hr]. intros i a r Hi. exact (nth_Forall_t _ _ _ _ Hr Hi).
+Qed.
+
+(* without the lock: request 0 reads the root of epoch 2 and is suspended; epoch 3 is published, polled
+   (flush, epoch record 3) and signalled; request 0 caches the root of epoch 2; request 1 answers
+   (epoch 3, version 2) - on the code: (3, root hash of epoch 2) *)
+Theorem two_records_without_lock_refuted :
+  let s := trun2 false (tinit 2 2) [QR 0; QR 0; QR 0; QX; QF; QR 0; QR 1; QR 1] in
+  t_azks s = 3 /\ nth_error (t_reqs s) 1 = Some (TDone 3 (Some 2)).
+Proof. vm_compute. split; reflexivity. Qed.
+
+Example two_records_with_lock_same_schedule :
+  let s := trun2 true (tinit 2 2) [QR 0; QR 0; QR 0; QX; QF; QR 0; QF; QR 1; QR 1; QR 1; QR 1] in
+  t_azks s = 3 /\ nth_error (t_reqs s) 1 = Some (TDone 3 (Some 3)).
+Proof. vm_compute. split; reflexivity. Qed.
